@@ -36,7 +36,7 @@ def handleLive (s : ASess) (h : Nat) : Bool :=
   s.regs.any fun _ r => r.contains h
 
 /-- run an autoref operation on manager `id` -/
-def runA (s : ASess) (id : Nat) (sched : List SchedItem) (x : AM Res) : ASess × String :=
+def runA (s : ASess) (id : Nat) (sched : List SchedItem) (x : AM DRes) : ASess × String :=
   match s.ms[id]? with
   | none => (s, "err BAD-MGR")
   | some m =>
@@ -67,7 +67,7 @@ def parseOrder (o : String) : Option (List (String × Int)) :=
   (parsePairs o).bind fun ps => ps.mapM fun (k, l) => do
     let l ← parseInt? l; pure (k, l)
 
-def bad : AM Res := AM.throw .other
+def bad : AM DRes := AM.throw .other
 
 def succStr (r : Nat × Option (Int × Int)) : String :=
   match r with
@@ -75,7 +75,7 @@ def succStr (r : Nat × Option (Int × Int)) : String :=
   | (i, some (v, w)) => s!"{i},{v},{w}"
 
 /-- one autoref operation on one manager; `outs` = ids for the new handles -/
-def stepA (op : String) (args : List String) (outs : List Nat) : AM Res :=
+def stepA (op : String) (args : List String) (outs : List Nat) : AM DRes :=
   match op, args, outs with
   | "a_var", [name], [h] => do return .int (← aVar name h)
   | "a_true", [], [h] => do return .int (← aConst true h)
@@ -305,7 +305,7 @@ def splitOuts (fields : List String) : Option (List String × List Nat) :=
 def isAutoOp (op : String) : Bool := op.startsWith "a_" || op.startsWith "f_"
 
 /-- operations between two managers: run in the target with the source read-only -/
-def runA2 (s : ASess) (src dst : Nat) (x : AMgr → AM Res) : ASess × String :=
+def runA2 (s : ASess) (src dst : Nat) (x : AMgr → AM DRes) : ASess × String :=
   match s.ms[src]?, s.ms[dst]? with
   | some ms, some md =>
     let asrc : AMgr := { m := ms, handles := (s.regs[src]?).getD {}, foreign := foreignOf s src }
